@@ -12,7 +12,7 @@ LEVEL = "fault_enumeration"
 RULE = ("for each response kind (state, capabilities, properties, energy, humidity): a valid frame describing a state different in every "
         "field from the client's current one is corrupted at one byte position after the start byte with a substitute value, either "
         "plain (outer checksum now wrong) or - for body bytes other than the trailing check byte - with the outer checksum recomputed; "
-        "the frame is the only answer to a refresh() (and for capabilities also to get_capabilities()). Independent validity predicate "
+        "the client has previously learned a capability profile with property-protocol features, energy and humidity reporting and holds valid readings; the frame is the only answer to every command of a refresh() (and for capabilities also to get_capabilities()). Independent validity predicate "
         "V = outer checksum ok and (id in {B0,B1} or CRC-8 ok or additive ok); for not V: to_dict() and the capability attributes must be "
         "unchanged and online/supported must be False. Corruptions with V true (the other check matches by chance, or the property-response "
         "exemption) are skipped and counted. distinct = (kind, position, value, fix-up); all judged cases are non-trivial")
@@ -32,7 +32,11 @@ S1 = {"power": True, "mode": 4, "target_temperature": 27.5, "fan": 80, "swing": 
       "fahrenheit": True, "freeze_protection": True, "follow_me": True, "purifier": True, "target_humidity": 66, "aux": 1,
       "display_on": False, "filter_alert": True, "indoor_raw": 0x70, "outdoor_raw": 0x40, "indoor_tenths": 3, "outdoor_tenths": 4}
 
-CAPS0 = [(0x0214, b"\x01"), (0x0215, b"\x01"), (0x0210, b"\x05"), (0x0212, b"\x01")]
+# the client's established capabilities include property-protocol features, energy and humidity reporting, so that
+# "stays exactly as it was" also covers those readings and the supports_* flags
+CAPS0 = [(0x0214, b"\x01"), (0x0215, b"\x01"), (0x0210, b"\x05"), (0x0212, b"\x01"), (0x0216, b"\x02"), (0x021F, b"\x01"),
+         (0x0009, b"\x01"), (0x000A, b"\x01"), (0x0039, b"\x01"), (0x0042, b"\x01"), (0x0018, b"\x01"), (0x00E3, b"\x01")]
+PROPS0 = {0x0009: b"\x19", 0x000A: b"\x32", 0x0039: b"\x00", 0x0042: b"\x02", 0x0018: b"\x00", 0x00E3: b"\x01\x01"}
 CAPS1 = [(0x0214, b"\x02"), (0x0215, b"\x03"), (0x0210, b"\x07"), (0x0212, b"\x00"), (0x021A, b"\x02"), (0x0213, b"\x00"),
          (0x0225, bytes([34, 60, 34, 60, 34, 60, 1])), (0x0216, b"\x02"), (0x021F, b"\x02"), (0x0043, b"\x01"), (0x0048, b"\x02")]
 
@@ -69,6 +73,10 @@ def generate(ctx, rng):
                 else:
                     vals = list(range(1, 256))
                 yield ("c", check, kind, pos), {"kind": kind, "check": check, "pos": pos, "xors": vals}
+    # the length byte (position 1) with all 255 values over many different valid frames (a weakened outer check that trusts the
+    # declared length is only fooled by particular frame contents)
+    for j in range(40 if quick else 600):
+        yield ("lenbyte", j), {"kind": "lenbyte", "check": "crc", "fseed": rng.getrandbits(32)}
     # sanity: the uncorrupted frames ARE used (otherwise "unchanged" would be vacuous)
     yield ("baseline",), {"kind": "baseline", "check": "crc"}
 
@@ -105,6 +113,9 @@ def run_case(ctx, case):
     net = H.new_net()
     model = ACModel(S0)
     model.caps_pages = [CAPS0]
+    model.props = dict(PROPS0)
+    model.energy = (bytes([0x00, 0x05, 0x65, 0x02]), bytes([0x00, 0x00, 0x01, 0x50]), bytes([0x00, 0x07, 0x30]))
+    model.humidity = 47
     dev = SimDevice(net, version=2, device_id=0x77, ac=model)
     feed = {"frames": None}
 
@@ -136,10 +147,18 @@ def run_case(ctx, case):
                 out.append(("baseline", k, snap != base, ac.online, ac.supported))
                 base = await baseline(ac)
             return
-        frame = frames[kind]
+        if kind == "lenbyte":
+            import random as _r
+            rr = _r.Random(case["fseed"])
+            st = {**S1, "target_temperature": rr.choice([17.0, 21.5, 26.0, 30.0]), "fan": rr.randint(1, 102), "indoor_raw": rr.randint(40, 120),
+                  "outdoor_raw": rr.randint(20, 130), "target_humidity": rr.randint(30, 90), "mode": rr.randint(1, 5)}
+            frame = acframe.build(acstate.encode_0xC0(st, rr.choice([23, 24, 26, 30])), acframe.FT_QUERY, check=case["check"])
+            pos_list = [(1, x) for x in range(1, 256)]
+        else:
+            frame = frames[kind]
+            pos_list = [(case["pos"], x) for x in case["xors"]]
         n = len(frame)
-        pos = case["pos"]
-        for x in case["xors"]:
+        for pos, x in pos_list:
             c = bytearray(frame)
             c[pos] ^= x
             variants = [("plain", bytes(c))]
@@ -161,7 +180,7 @@ def run_case(ctx, case):
                     except Exception as e:  # noqa: BLE001
                         exc = e
                     snap = _snapshot(ac)
-                    out.append((op, vname, cf, exc, snap == base, (ac.online, ac.supported), x))
+                    out.append((op, vname, cf, exc, snap == base, (ac.online, ac.supported), x, pos))
                     if snap != base or exc is not None:
                         diff = {k: (base[0].get(k), snap[0].get(k)) for k in base[0] if base[0].get(k) != snap[0].get(k)}
                         diff.update({k: (base[1][k], snap[1][k]) for k in base[1] if base[1][k] != snap[1][k]})
@@ -181,16 +200,16 @@ def run_case(ctx, case):
         if rec[0] == "skip":
             ctx.skip(f"corruption still valid ({rec[1]})")
             continue
-        op, vname, cf, exc, same, (online, supported), x = rec[:7]
-        key = (kind, case["check"], case["pos"], x, vname, op)
-        ctx.count(key, kind=f"{kind}-{vname}", sample={"kind": kind, "pos": case["pos"], "xor": x, "variant": vname, "frame": cf})
+        op, vname, cf, exc, same, (online, supported), x, pos = rec[:8]
+        key = (kind, case["check"], pos, x, vname, op, case.get("fseed"))
+        ctx.count(key, kind=f"{kind}-{vname}", sample={"kind": kind, "pos": pos, "xor": x, "variant": vname, "frame": cf})
         one = {**case, "xors": [x]}
         if exc is not None:
             ctx.violation("raises", f"{op} raised {type(exc).__name__}: {exc} for a corrupted {kind} frame", one, {"frame": cf})
             continue
         if not same:
-            ctx.violation("corrupted-frame-used", f"state changed after a corrupted {kind} frame ({vname}, byte {case['pos']})", one,
-                          {"frame": cf, "diff": rec[7] if len(rec) > 7 else None})
+            ctx.violation("corrupted-frame-used", f"state changed after a corrupted {kind} frame ({vname}, byte {pos})", one,
+                          {"frame": cf, "diff": rec[8] if len(rec) > 8 else None})
         if op == "refresh" and (online or supported):
             ctx.violation("online-after-only-corrupted", f"refresh that saw only a corrupted {kind} frame reports online={online} supported={supported}",
                           one, {"frame": cf})
